@@ -3,7 +3,7 @@ import ExaModel.Driver.Loop
 open Exa.Driver
 
 def main : IO Unit :=
-  runDriver (Exa.Rib.Sess.init true []) (fun st line =>
+  runDriver ({ core := Exa.Rib.Sess.init true [], sendEor := true } : Exa.Rib.ESess) (fun st line =>
     match words line with
     | "rib" :: ws => ribLine st ws
     | _ => (st, "bad-op"))
